@@ -854,12 +854,20 @@ struct Viol {
 struct Ts {
     stacks: Vec<Vec<(AMap, FK)>>,
     viols: Vec<Viol>,
-    counters: BTreeMap<&'static str, u64>,
+    /// (name, count); a short linear scan is far cheaper under Miri than a map
+    counters: Vec<(&'static str, u64)>,
     max_depth: usize,
     thread: &'static str,
 }
 
 impl Ts {
+    fn count(&mut self, name: &'static str, n: u64) {
+        match self.counters.iter_mut().find(|(k, _)| *k == name) {
+            Some((_, c)) => *c += n,
+            None => self.counters.push((name, n)),
+        }
+    }
+
     fn depths(&self) -> [usize; MAXI] {
         let mut d = [0; MAXI];
         for (i, s) in self.stacks.iter().enumerate() {
@@ -885,7 +893,7 @@ fn ts<R>(f: impl FnOnce(&mut Ts) -> R) -> R {
 }
 
 fn bump(name: &'static str) {
-    ts(|t| *t.counters.entry(name).or_insert(0) += 1)
+    ts(|t| t.count(name, 1))
 }
 
 fn top(inst: usize) -> AMap {
@@ -957,8 +965,8 @@ fn check(cx: &Cx, site: &'static str) {
         compare(cx, site, i, h.name(), &got);
     }
     ts(|t| {
-        *t.counters.entry("program-points-checked").or_insert(0) += 1;
-        *t.counters.entry("with_current-reads").or_insert(0) += cx.insts.len() as u64;
+        t.count("program-points-checked", 1);
+        t.count("with_current-reads", cx.insts.len() as u64);
     });
 }
 
@@ -970,8 +978,8 @@ fn check_all_handles(cx: &Cx, site: &'static str) {
         }
     }
     ts(|t| {
-        *t.counters.entry("program-points-checked").or_insert(0) += 1;
-        *t.counters.entry("with_current-reads").or_insert(0) += (cx.insts.len() * HANDLES.len()) as u64;
+        t.count("program-points-checked", 1);
+        t.count("with_current-reads", (cx.insts.len() * HANDLES.len()) as u64);
     });
 }
 
@@ -1049,7 +1057,7 @@ fn run_thread<R>(cx: &Cx, name: &'static str, f: impl FnOnce() -> R) -> R {
     let r = f();
     ts(|t| {
         if t.stacks.iter().any(|s| !s.is_empty()) {
-            *t.counters.entry("monitor-model-out-of-step").or_insert(0) += 1;
+            t.count("monitor-model-out-of-step", 1);
         }
     });
     if cx.check_every == 1 || name == "main" {
